@@ -125,6 +125,23 @@ def run(ctx):
                            feed_b=lambda d, x, tt, pb=pb: d.update(pb(x, tt)), pre_b=pb, restrict=(lambda nums: nums) if fam != "NNDVI" else None,
                            extra={"order": "dupindex"})
             full.append(t)
+    # a stream that starts by replaying its reference (the first distances of the epoch are exactly equal, the first observed epsilon exactly 0),
+    # followed by moderately shifted batches: with detect_batch=3 nothing about the threshold may depend on where a row stands
+    for fam in ("HDDDM", "CDBD"):
+        for i in range(4 if q else 16):
+            p = dict(P.default_params(fam, rng), detect_batch=3)
+            d = 1 if fam == "CDBD" else 2
+            c, spread = [rng.randint(-5, 5) for _ in range(d)], rng.randint(6, 10)
+            ref = [[x + rng.randint(0, spread) for x in c] for _ in range(rng.choice([16, 24, 30]))]
+            items = [ref, list(ref), list(ref)]
+            for j in range(4):
+                sh = rng.choice([1, 2, 3])
+                items.append([[x + rng.randint(0, spread) + (sh if rng.random() < 0.6 else 0) for x in c] for _ in range(rng.choice([16, 24]))])
+            s = rng.randrange(10 ** 6)
+            order = ("perm", "asc", "desc")[i % 3]
+            pre = pre_of(order, s)
+            full.append(P.two_runs(fam, p, p, items, s, "Equal", feed_b=lambda d_, x, t, pre=pre: d_.update(pre(x, t)), pre_b=pre,
+                                   restrict=lambda nums: nums, extra={"order": order}))
     # loosely typed containers (object arrays / object frames / nested lists of Python ints and floats): what a row IS does not depend on which row leads
     for fam in ("HDDDM", "CDBD", "KdqTreeBatch"):
         for i in range(3 if q else 12):
